@@ -9,11 +9,11 @@
    for which the client returns no local error, a client whose extension map
    holds the keys of the options used and a server with the extensions
    enabled: the line the client writes is parsed by the server into the MAIL /
-   RCPT event carrying the SAME address and the SAME options - except
-   MailOptions.Body, which arrives as "8BITMIME" whatever was given (known
-   finding F14).
+   RCPT event carrying the SAME address and the SAME options, MailOptions.Body
+   included ([C14_body]: each of 7BIT / 8BITMIME / BINARYMIME x every server
+   configuration; an unset Body arrives as the documented default "8BITMIME").
 
-   Outside the domain, with witnesses: F14 (Body), F25 (addresses that are not
+   Outside the domain, with witnesses: F25 (addresses that are not
    addr_simple), [C14_addr_special_refused] (addr_simple but refused by the
    server's path parser), [C14_orcpt_unicode_space_refuted] (ORCPT in the
    unitext form containing non-ASCII Unicode white space),
@@ -67,8 +67,15 @@ Definition mo_merge (ks : list bytes) (e o : mail_opts) : mail_opts :=
        (if has_key (bs "ENVID") ks then mo_envid e else mo_envid o)
        (if has_key (bs "AUTH") ks then mo_auth e else mo_auth o).
 
+(* BODY=BINARYMIME raises the connection's binarymime flag *)
+Definition bin_kv (kv : bytes * bytes) : bool :=
+  bytes_eqb (fst kv) (bs "BODY") && is_binarymime (snd kv).
+
+Lemma bin_kv_other k v : bytes_eqb k (bs "BODY") = false -> bin_kv (k, v) = false.
+Proof. intros H. unfold bin_kv. cbn [fst]. now rewrite H. Qed.
+
 Definition sets_mail (cfg : config) (e : mail_opts) (k v : bytes) : Prop :=
-  forall o bm, mail_param cfg k v o bm = inl (mo_merge [k] e o, bm).
+  forall o bm, mail_param cfg k v o bm = inl (mo_merge [k] e o, bm || bin_kv (k, v)).
 
 Lemma merge_field {A} K k ks (x y : A) :
   (if has_key K ks then x else if has_key K [k] then x else y)
@@ -86,12 +93,14 @@ Qed.
 
 Lemma mail_params_merge cfg e l :
   (forall k v, In (k, v) l -> sets_mail cfg e k v) ->
-  forall o bm, Conn.mail_params cfg l o bm = inl (mo_merge (map fst l) e o, bm).
+  forall o bm, Conn.mail_params cfg l o bm
+               = inl (mo_merge (map fst l) e o, bm || existsb bin_kv l).
 Proof.
   induction l as [|[k v] l IH]; intros H o bm.
-  - cbn [Conn.mail_params map]. unfold mo_merge, has_key. cbn [existsb]. destruct o; reflexivity.
-  - cbn [Conn.mail_params map fst]. rewrite (H k v (or_introl eq_refl)).
-    rewrite IH by (intros k' v' Hin; apply H; now right). now rewrite mo_merge_cons.
+  - cbn [Conn.mail_params map existsb]. rewrite orb_false_r.
+    unfold mo_merge, has_key. cbn [existsb]. destruct o; reflexivity.
+  - cbn [Conn.mail_params map fst existsb]. rewrite (H k v (or_introl eq_refl)).
+    rewrite IH by (intros k' v' Hin; apply H; now right). now rewrite mo_merge_cons, orb_assoc.
 Qed.
 
 (* ------------------------------------------------------------------ *)
@@ -214,12 +223,31 @@ Qed.
 (* MAIL                                                                *)
 (* ------------------------------------------------------------------ *)
 
-(* what the backend sees for the options o: everything, except that Body is
-   what the client always writes (known finding F14) *)
-Definition seen_mail (o : mail_opts) : mail_opts := set_body o (bs "8BITMIME").
+(* Body as the backend sees it: the value given; an unset Body is sent as
+   BODY=8BITMIME whenever the server offers 8BITMIME (the documented default of
+   Client.Mail), and not at all otherwise *)
+Definition seen_body (ext : option Client.extmap) (o : mail_opts) : bytes :=
+  match mo_body o with
+  | [] => if Client.has_ext ext (bs "8BITMIME") then bs "8BITMIME" else []
+  | _ :: _ => mo_body o
+  end.
 
-Definition mail_kvs (o : mail_opts) : list (bytes * bytes) :=
-  [(bs "BODY", bs "8BITMIME")]
+(* what the backend sees for the options o: o itself when Body is set *)
+Definition seen_mail (ext : option Client.extmap) (o : mail_opts) : mail_opts :=
+  set_body o (seen_body ext o).
+
+Lemma seen_mail_id ext o : mo_body o <> [] -> seen_mail ext o = o.
+Proof.
+  intros H. unfold seen_mail, seen_body, set_body. destruct o as [b s r u rt ev au].
+  cbn [mo_body mo_size mo_requiretls mo_utf8 mo_ret mo_envid mo_auth] in *.
+  destruct b; [congruence|reflexivity].
+Qed.
+
+Definition body_kvs (ext : option Client.extmap) (o : mail_opts) : list (bytes * bytes) :=
+  match seen_body ext o with [] => [] | _ :: _ => [(bs "BODY", seen_body ext o)] end.
+
+Definition mail_kvs (ext : option Client.extmap) (o : mail_opts) : list (bytes * bytes) :=
+  body_kvs ext o
   ++ (if (mo_size o =? 0)%Z then [] else [(bs "SIZE", dec_of_Z (mo_size o))])
   ++ (if mo_requiretls o then [(bs "REQUIRETLS", [])] else [])
   ++ (if mo_utf8 o then [(bs "SMTPUTF8", [])] else [])
@@ -227,11 +255,12 @@ Definition mail_kvs (o : mail_opts) : list (bytes * bytes) :=
   ++ (match mo_envid o with [] => [] | _ :: _ => [(bs "ENVID", encode_xtext (mo_envid o))] end)
   ++ (match mo_auth o with None => [] | Some a => [(bs "AUTH", Client.auth_value a)] end).
 
-Definition mail_toks (o : mail_opts) : list bytes := map tok_of (mail_kvs o).
+Definition mail_toks ext (o : mail_opts) : list bytes := map tok_of (mail_kvs ext o).
 
 (* the options the theorem speaks about *)
 Definition mail_dom (cfg : config) (o : mail_opts) : Prop :=
-  (0 <= mo_size o < 2 ^ 63)%Z
+  (mo_body o = [] \/ body_value (mo_body o))
+  /\ (0 <= mo_size o < 2 ^ 63)%Z
   /\ (cf_max_bytes cfg <= 0 \/ mo_size o <= cf_max_bytes cfg)%Z
   /\ (mo_ret o = [] \/ mo_ret o = bs "FULL" \/ mo_ret o = bs "HDRS")
   /\ is_printable_ascii (mo_envid o) = true
@@ -242,29 +271,51 @@ Definition mail_dom (cfg : config) (o : mail_opts) : Prop :=
 
 (* the server has the extensions the options need *)
 Definition mail_srv (cfg : config) (o : mail_opts) : Prop :=
-  (mo_requiretls o = true -> cf_requiretls cfg = true)
+  (mo_body o = bs "BINARYMIME" -> cf_binarymime cfg = true)
+  /\ (mo_requiretls o = true -> cf_requiretls cfg = true)
   /\ (mo_utf8 o = true -> cf_utf8 cfg = true)
   /\ (mo_ret o <> [] \/ mo_envid o <> [] -> cf_dsn cfg = true).
 
 (* ... and the client has learnt them from EHLO *)
 Definition mail_ext (ext : option Client.extmap) (o : mail_opts) : Prop :=
-  Client.has_ext ext (bs "8BITMIME") = true
+  (mo_body o = bs "7BIT" \/ mo_body o = bs "8BITMIME" -> Client.has_ext ext (bs "8BITMIME") = true)
+  /\ (mo_body o = bs "BINARYMIME" -> Client.has_ext ext (bs "BINARYMIME") = true)
   /\ (mo_size o <> 0%Z -> Client.has_ext ext (bs "SIZE") = true)
   /\ (mo_requiretls o = true -> Client.has_ext ext (bs "REQUIRETLS") = true)
   /\ (mo_utf8 o = true -> Client.has_ext ext (bs "SMTPUTF8") = true)
   /\ (mo_ret o <> [] \/ mo_envid o <> [] -> Client.has_ext ext (bs "DSN") = true)
   /\ (mo_auth o <> None -> Client.has_ext ext (bs "AUTH") = true).
 
+(* the BODY token the client writes *)
+Lemma client_body_toks ext opts :
+  let o := match opts with Some o => o | None => mo_zero end in
+  (mo_body o = [] \/ body_value (mo_body o)) -> mail_ext ext o ->
+  Client.mail_body_param ext opts = inl (map tok_of (body_kvs ext o)).
+Proof.
+  intros o Hb (H8 & Hbin & _). unfold Client.mail_body_param, body_kvs, seen_body, Client.key.
+  destruct opts as [o'|].
+  - subst o. destruct Hb as [E|[E|[E|E]]]; rewrite E in *.
+    + destruct (Client.has_ext ext (bs "8BITMIME")); reflexivity.
+    + rewrite (H8 (or_introl eq_refl)). reflexivity.
+    + rewrite (H8 (or_intror eq_refl)). reflexivity.
+    + rewrite (Hbin eq_refl). reflexivity.
+  - subst o. cbn [mo_body mo_zero]. destruct (Client.has_ext ext (bs "8BITMIME")); reflexivity.
+Qed.
+
 Lemma client_mail_toks cfg ext o :
   mail_dom cfg o -> mail_ext ext o ->
-  Client.mail_params ext (Some o) = inl (mail_toks o).
+  Client.mail_params ext (Some o) = inl (mail_toks ext o).
 Proof.
-  intros (_ & _ & Hret & Hp & _) (H8 & Hs & Hr & Hu & Hd & Ha).
+  intros Hdom Hext.
+  pose proof (client_body_toks ext (Some o) (proj1 Hdom) Hext) as Hbt. cbv zeta in Hbt.
+  destruct Hdom as (_ & _ & _ & Hret & Hp & _). destruct Hext as (_ & _ & Hs & Hr & Hu & Hd & Ha).
+  unfold Client.mail_params. rewrite Hbt. clear Hbt.
+  unfold mail_toks, mail_kvs. rewrite map_app.
+  unfold body_kvs. generalize (seen_body ext o). intros sb.
   destruct o as [body size rtls utf8 ret envid auth].
   cbn [mo_body mo_size mo_requiretls mo_utf8 mo_ret mo_envid mo_auth] in *.
-  unfold Client.mail_params, mail_toks, mail_kvs, Client.mail_dsn_params, Client.key.
+  unfold Client.mail_dsn_params, Client.key.
   cbn [mo_body mo_size mo_requiretls mo_utf8 mo_ret mo_envid mo_auth].
-  rewrite H8.
   assert (Hs' : (size =? 0)%Z = false -> Client.has_ext ext (bs "SIZE") = true) by (intros E; apply Hs; lia).
   destruct (size =? 0)%Z; [rewrite andb_false_r|rewrite (Hs' eq_refl)];
   (destruct rtls; [rewrite (Hr eq_refl)|]);
@@ -276,21 +327,44 @@ Proof.
    | destruct ret as [|r0 ret]; [|exfalso; assert (true = false) by (symmetry; apply Hd; left; discriminate); discriminate];
      destruct envid as [|e0 envid]; [|exfalso; assert (true = false) by (symmetry; apply Hd; right; discriminate); discriminate] ]);
   (destruct auth as [a|]; [rewrite Ha by discriminate|]);
-  reflexivity.
+  destruct sb; reflexivity.
 Qed.
 
-Lemma mail_kv_facts cfg o kv :
-  mail_dom cfg o -> mail_srv cfg o -> In kv (mail_kvs o) ->
-  tok_kv (tok_of kv) (fst kv) (snd kv) /\ tok_ok (tok_of kv)
-  /\ sets_mail cfg (seen_mail o) (fst kv) (snd kv).
+(* the Body the backend sees is one the server accepts *)
+Lemma seen_body_value cfg ext o :
+  mail_dom cfg o -> mail_srv cfg o ->
+  seen_body ext o = [] \/ (body_value (seen_body ext o)
+                          /\ (seen_body ext o = bs "BINARYMIME" -> cf_binarymime cfg = true)).
 Proof.
-  intros (Hsz & Hmax & Hret & Hp & Hauth) (Sr & Su & Sd) Hin.
+  intros (Hb & _) (Sb & _). unfold seen_body.
+  destruct Hb as [E|Hv].
+  - rewrite E. destruct (Client.has_ext ext (bs "8BITMIME")); [right|left; reflexivity].
+    split; [right; left; reflexivity|discriminate].
+  - right. destruct (mo_body o) as [|b0 bt] eqn:E.
+    + destruct Hv as [H|[H|H]]; discriminate H.
+    + split; [exact Hv|exact Sb].
+Qed.
+
+Ltac nobin :=
+  match goal with
+  | |- context [bin_kv (bs ?k, ?v)] => rewrite (bin_kv_other (bs k) v eq_refl), orb_false_r
+  end.
+
+Lemma mail_kv_facts cfg ext o kv :
+  mail_dom cfg o -> mail_srv cfg o -> In kv (mail_kvs ext o) ->
+  tok_kv (tok_of kv) (fst kv) (snd kv) /\ tok_ok (tok_of kv)
+  /\ sets_mail cfg (seen_mail ext o) (fst kv) (snd kv).
+Proof.
+  intros Hdom Hsrv Hin. pose proof (seen_body_value cfg ext o Hdom Hsrv) as Hsb.
+  destruct Hdom as (_ & Hsz & Hmax & Hret & Hp & Hauth). destruct Hsrv as (_ & Sr & Su & Sd).
   unfold mail_kvs in Hin. repeat (apply in_app_or in Hin as [Hin|Hin]).
   - (* BODY *)
-    destruct Hin as [<-|[]]. split; [|split].
-    + repeat split; try reflexivity. left. split; reflexivity.
-    + split; [reflexivity|discriminate].
-    + intros o' bm. cbn [fst snd]. rewrite C14_body_8bitmime. reflexivity.
+    unfold body_kvs in Hin. unfold seen_mail.
+    destruct (seen_body ext o) as [|s0 st] eqn:Esb; [destruct Hin|]. destruct Hin as [<-|[]].
+    destruct Hsb as [Hsb|[Hv Hbin]]; [discriminate|]. cbn [fst snd]. split; [|split].
+    + destruct Hv as [-> | [-> | ->]]; (repeat split; try reflexivity; left; split; reflexivity).
+    + destruct Hv as [-> | [-> | ->]]; (split; [reflexivity|discriminate]).
+    + intros o' bm. rewrite (C14_body_param cfg (s0 :: st) o' bm Hv Hbin). reflexivity.
   - (* SIZE *)
     destruct (mo_size o =? 0)%Z eqn:Z; [destruct Hin|]. destruct Hin as [<-|[]].
     pose proof (dec_of_Z_zch (mo_size o)) as Hz. split; [|split].
@@ -298,18 +372,19 @@ Proof.
     + split; [|discriminate]. apply ws_free_ascii. tokof.
       change (bs "SIZE" ++ "=" :: dec_of_Z (mo_size o)) with (bs "SIZE=" ++ dec_of_Z (mo_size o)).
       rewrite forallb_app. rewrite (zch_tokch _ Hz). reflexivity.
-    + intros o' bm. cbn [fst snd]. rewrite C14_size_Z by assumption. reflexivity.
+    + intros o' bm. cbn [fst snd]. nobin.
+      rewrite C14_size_Z by assumption. reflexivity.
   - (* REQUIRETLS *)
     destruct (mo_requiretls o) eqn:R; [|destruct Hin]. destruct Hin as [<-|[]]. split; [|split].
     + repeat split; try reflexivity. right. split; reflexivity.
     + split; [reflexivity|discriminate].
-    + intros o' bm. cbn [fst snd]. rewrite C14_requiretls by auto.
+    + intros o' bm. cbn [fst snd]. nobin. rewrite C14_requiretls by auto.
       unfold mo_merge, seen_mail, set_body, set_requiretls. cbn. now rewrite R.
   - (* SMTPUTF8 *)
     destruct (mo_utf8 o) eqn:R; [|destruct Hin]. destruct Hin as [<-|[]]. split; [|split].
     + repeat split; try reflexivity. right. split; reflexivity.
     + split; [reflexivity|discriminate].
-    + intros o' bm. cbn [fst snd]. rewrite C14_smtputf8 by auto.
+    + intros o' bm. cbn [fst snd]. nobin. rewrite C14_smtputf8 by auto.
       unfold mo_merge, seen_mail, set_body, set_utf8. cbn. now rewrite R.
   - (* RET *)
     destruct (mo_ret o) as [|r0 r] eqn:R; [destruct Hin|]. destruct Hin as [<-|[]].
@@ -318,7 +393,7 @@ Proof.
     split; [|split].
     + repeat split; try reflexivity. left. split; [destruct Hv as [-> | ->]; reflexivity|reflexivity].
     + split; [destruct Hv as [-> | ->]; reflexivity|discriminate].
-    + intros o' bm. cbn [fst snd]. rewrite C14_ret by assumption.
+    + intros o' bm. cbn [fst snd]. nobin. rewrite C14_ret by assumption.
       unfold mo_merge, seen_mail, set_body, set_ret. cbn. now rewrite R.
   - (* ENVID *)
     destruct (mo_envid o) as [|e0 e] eqn:R; [destruct Hin|]. destruct Hin as [<-|[]].
@@ -328,7 +403,7 @@ Proof.
     + split; [|discriminate]. apply ws_free_ascii. tokof.
       change (bs "ENVID" ++ "=" :: encode_xtext (e0 :: e)) with (bs "ENVID=" ++ encode_xtext (e0 :: e)).
       rewrite forallb_app. rewrite (xtch_tokch _ Hx). reflexivity.
-    + intros o' bm. cbn [fst snd]. rewrite C14_envid by (assumption || discriminate).
+    + intros o' bm. cbn [fst snd]. nobin. rewrite C14_envid by (assumption || discriminate).
       unfold mo_merge, seen_mail, set_body, set_envid. cbn. now rewrite R.
   - (* AUTH *)
     destruct (mo_auth o) as [a|] eqn:R; [|destruct Hin]. destruct Hin as [<-|[]].
@@ -336,7 +411,7 @@ Proof.
     + split; [|split].
       * repeat split; try reflexivity. left. split; reflexivity.
       * split; [reflexivity|discriminate].
-      * intros o' bm. cbn [fst snd]. rewrite C14_auth_empty.
+      * intros o' bm. cbn [fst snd]. nobin. rewrite C14_auth_empty.
         unfold mo_merge, seen_mail, set_body, set_auth. cbn. now rewrite R.
     + destruct Hauth as [Ha Hm]. cbn [Client.auth_value].
       pose proof (encode_xtext_xtch (a0 :: a)) as Hx. split; [|split].
@@ -344,7 +419,7 @@ Proof.
       * split; [|discriminate]. apply ws_free_ascii. tokof.
         change (bs "AUTH" ++ "=" :: encode_xtext (a0 :: a)) with (bs "AUTH=" ++ encode_xtext (a0 :: a)).
         rewrite forallb_app. rewrite (xtch_tokch _ Hx). reflexivity.
-      * intros o' bm. cbn [fst snd]. rewrite C14_auth_mailbox by assumption.
+      * intros o' bm. cbn [fst snd]. nobin. rewrite C14_auth_mailbox by assumption.
         unfold mo_merge, seen_mail, set_body, set_auth. cbn. now rewrite R.
 Qed.
 
@@ -424,7 +499,7 @@ Lemma has_key_mono K ks ks' :
 Proof. intros H. rewrite !has_key_in. apply H. Qed.
 
 Lemma mo_merge_full ks e :
-  has_key (bs "BODY") ks = true ->
+  (has_key (bs "BODY") ks = true \/ mo_body e = []) ->
   (has_key (bs "SIZE") ks = true \/ mo_size e = 0%Z) ->
   (has_key (bs "REQUIRETLS") ks = true \/ mo_requiretls e = false) ->
   (has_key (bs "SMTPUTF8") ks = true \/ mo_utf8 e = false) ->
@@ -435,7 +510,6 @@ Lemma mo_merge_full ks e :
 Proof.
   intros H1 H2 H3 H4 H5 H6 H7. unfold mo_merge. destruct e as [b s r u rt ev au].
   cbn [mo_body mo_size mo_requiretls mo_utf8 mo_ret mo_envid mo_auth mo_zero] in *.
-  rewrite H1.
   f_equal;
     match goal with
     | |- (if ?c then _ else _) = _ => destruct c; [reflexivity|]
@@ -445,9 +519,9 @@ Proof.
     end.
 Qed.
 
-Lemma mail_kvs_keys o :
-  let ks := map fst (mail_kvs o) in
-  has_key (bs "BODY") ks = true
+Lemma mail_kvs_keys ext o :
+  let ks := map fst (mail_kvs ext o) in
+  (has_key (bs "BODY") ks = true \/ seen_body ext o = [])
   /\ (has_key (bs "SIZE") ks = true \/ mo_size o = 0%Z)
   /\ (has_key (bs "REQUIRETLS") ks = true \/ mo_requiretls o = false)
   /\ (has_key (bs "SMTPUTF8") ks = true \/ mo_utf8 o = false)
@@ -455,10 +529,52 @@ Lemma mail_kvs_keys o :
   /\ (has_key (bs "ENVID") ks = true \/ mo_envid o = [])
   /\ (has_key (bs "AUTH") ks = true \/ mo_auth o = None).
 Proof.
-  destruct o as [b s r u rt ev au]. unfold mail_kvs.
+  unfold mail_kvs, body_kvs. generalize (seen_body ext o). intros sb.
+  destruct o as [b s r u rt ev au].
   cbn [mo_body mo_size mo_requiretls mo_utf8 mo_ret mo_envid mo_auth].
-  destruct (s =? 0)%Z eqn:Z; [apply Z.eqb_eq in Z|]; destruct r, u, rt, ev, au;
+  destruct (s =? 0)%Z eqn:Z; [apply Z.eqb_eq in Z|]; destruct sb, r, u, rt, ev, au;
     cbv zeta; repeat split; (left; reflexivity) || (right; first [reflexivity|assumption]).
+Qed.
+
+(* BODY=BINARYMIME is among the parameters iff Body is BINARYMIME *)
+Lemma mail_kvs_bin cfg ext o kv :
+  mail_dom cfg o -> In kv (mail_kvs ext o) -> bin_kv kv = true -> mo_body o = bs "BINARYMIME".
+Proof.
+  intros (Hb & _) Hin Hk. unfold mail_kvs in Hin. apply in_app_or in Hin as [Hin|Hin].
+  - unfold body_kvs in Hin. destruct (seen_body ext o) as [|s0 st] eqn:Esb; [destruct Hin|].
+    destruct Hin as [<-|[]]. unfold bin_kv, is_binarymime in Hk. cbn [fst snd] in Hk.
+    apply andb_true_iff in Hk as [_ Hk]. apply bytes_eqb_eq in Hk.
+    unfold seen_body in Esb. destruct (mo_body o) as [|b0 bt] eqn:E; [|congruence].
+    destruct (Client.has_ext ext (bs "8BITMIME")); [|discriminate]. rewrite Hk in Esb. discriminate.
+  - exfalso. unfold bin_kv in Hk. apply andb_true_iff in Hk as [Hk _]. apply bytes_eqb_eq in Hk.
+    repeat (apply in_app_or in Hin as [Hin|Hin]);
+      repeat match type of Hin with
+             | In _ (if ?c then _ else _) => destruct c
+             | In _ (match ?x with _ => _ end) => destruct x
+             end;
+      cbn [In] in Hin; try contradiction;
+      destruct Hin as [<-|[]]; discriminate Hk.
+Qed.
+
+Lemma seen_body_bin ext o :
+  is_binarymime (seen_body ext o) = is_binarymime (mo_body o).
+Proof.
+  unfold seen_body. destruct (mo_body o); [|reflexivity].
+  destruct (Client.has_ext ext (bs "8BITMIME")); reflexivity.
+Qed.
+
+Lemma pop_mail_binarymime c b : fst (pop_mail (upd_binarymime c b)) = fst (pop_mail c).
+Proof.
+  unfold pop_mail. change (c_be (upd_binarymime c b)) with (c_be c).
+  destruct (pop BNil (be_mail (c_be c))). reflexivity.
+Qed.
+
+Lemma pop_mail_flag c b :
+  c_binarymime (snd (pop_mail (upd_binarymime c b))) = b
+  /\ c_session (snd (pop_mail (upd_binarymime c b))) = c_session c.
+Proof.
+  unfold pop_mail. change (c_be (upd_binarymime c b)) with (c_be c).
+  destruct (pop BNil (be_mail (c_be c))). split; reflexivity.
 Qed.
 
 Definition mail_state_ok (c : conn) : Prop :=
@@ -495,30 +611,35 @@ Qed.
 
 Theorem C14_mail_trip cfg ext c from opts :
   let o := match opts with Some o => o | None => mo_zero end in
-  let ps := mail_toks o in
+  let ps := mail_toks ext o in
   (from = [] \/ addr_ok from = true) ->
   mail_dom cfg o -> mail_srv cfg o -> mail_ext ext o -> mail_state_ok c ->
   (* the client returns no local error and writes exactly this line ... *)
   Client.mail_params ext opts = inl ps
   /\ exists arg,
        parse_cmd (Client.mail_line from ps) = Some (bs "MAIL", arg)
-       (* ... which the server turns into this backend call *)
+       (* ... which the server turns into this backend call: the options given,
+          Body included (seen_mail ext o = o when Body is set: seen_mail_id) *)
        /\ exists c' w,
             handle cfg c (bs "MAIL") arg
-            = (c', [EMail from (seen_mail o) (fst (pop_mail (upd_binarymime c false))); w]).
+            = (c', [EMail from (seen_mail ext o) (fst (pop_mail c)); w])
+            (* ... and DATA is refused from then on iff Body is BINARYMIME *)
+            /\ c_binarymime c' = is_binarymime (mo_body o).
 Proof.
   intros o ps Hfrom Hdom Hsrv Hext (Hhelo & Hbdat & Hsess).
   assert (Hcl : Client.mail_params ext opts = inl ps).
   { destruct opts as [o'|]; [exact (client_mail_toks cfg ext o' Hdom Hext)|].
-    destruct Hext as (H8 & _). unfold Client.mail_params, Client.key. rewrite H8. reflexivity. }
+    unfold Client.mail_params. rewrite (client_body_toks ext None (proj1 Hdom) Hext).
+    unfold ps, mail_toks, mail_kvs. subst o. cbn [mo_size mo_requiretls mo_utf8 mo_ret mo_envid mo_auth mo_zero Z.eqb].
+    rewrite !app_nil_r. reflexivity. }
   split; [exact Hcl|].
-  assert (Hfacts : forall kv, In kv (mail_kvs o) ->
+  assert (Hfacts : forall kv, In kv (mail_kvs ext o) ->
             tok_kv (tok_of kv) (fst kv) (snd kv) /\ tok_ok (tok_of kv)
-            /\ sets_mail cfg (seen_mail o) (fst kv) (snd kv))
+            /\ sets_mail cfg (seen_mail ext o) (fst kv) (snd kv))
     by (intros kv; now apply mail_kv_facts).
   assert (Hok : Forall tok_ok ps).
   { apply Forall_forall. intros p Hp. apply in_map_iff in Hp as (kv & <- & Hkv). now apply Hfacts. }
-  assert (Hkv : Forall2 (fun p kv => tok_kv p (fst kv) (snd kv)) ps (mail_kvs o)).
+  assert (Hkv : Forall2 (fun p kv => tok_kv p (fst kv) (snd kv)) ps (mail_kvs ext o)).
   { apply Forall2_map_tok. intros kv Hin. now apply Hfacts. }
   assert (Hca : clean from).
   { destruct Hfrom as [->|Ha]; [split; reflexivity|]. now destruct (addr_ok_mbox _ Ha) as (? & ? & _ & _ & ?). }
@@ -536,27 +657,59 @@ Proof.
   { destruct Hfrom as [->|Ha]; [reflexivity|].
     destruct (addr_ok_mbox _ Ha) as (lp & dom & -> & Hm & _). now apply parse_reverse_path_ok. }
   rewrite Hpath.
-  destruct (parse_args_render ps (mail_kvs o) Hok Hkv) as (m & -> & Hin & Hkeys).
-  rewrite (mail_params_merge cfg (seen_mail o)).
+  destruct (parse_args_render ps (mail_kvs ext o) Hok Hkv) as (m & -> & Hin & Hkeys).
+  rewrite (mail_params_merge cfg (seen_mail ext o)).
   2:{ intros k v Hs. apply sort_kv_in, Hin in Hs. now apply (Hfacts (k, v)). }
-  assert (Hm : mo_merge (map fst (sort_kv m)) (seen_mail o) mo_zero = seen_mail o).
-  { assert (Mono : forall K, has_key K (map fst (mail_kvs o)) = true ->
-                             has_key K (map fst (sort_kv m)) = true).
-    { intros K. apply has_key_mono. intros k Hk. apply keys_sorted. now apply Hkeys. }
-    destruct (mail_kvs_keys o) as (K1 & K2 & K3 & K4 & K5 & K6 & K7).
-    apply mo_merge_full; try (apply Mono; exact K1);
+  assert (Mono : forall K, has_key K (map fst (mail_kvs ext o)) = true ->
+                           has_key K (map fst (sort_kv m)) = true).
+  { intros K. apply has_key_mono. intros k Hk. apply keys_sorted. now apply Hkeys. }
+  assert (Hm : mo_merge (map fst (sort_kv m)) (seen_mail ext o) mo_zero = seen_mail ext o).
+  { destruct (mail_kvs_keys ext o) as (K1 & K2 & K3 & K4 & K5 & K6 & K7).
+    apply mo_merge_full;
       match goal with
-      | |- _ \/ _ => first [ destruct K2 as [K|K]; [left; now apply Mono|right; exact K]
+      | |- _ \/ _ => first [ destruct K1 as [K|K]; [left; now apply Mono|right; exact K]
+                           | destruct K2 as [K|K]; [left; now apply Mono|right; exact K]
                            | destruct K3 as [K|K]; [left; now apply Mono|right; exact K]
                            | destruct K4 as [K|K]; [left; now apply Mono|right; exact K]
                            | destruct K5 as [K|K]; [left; now apply Mono|right; exact K]
                            | destruct K6 as [K|K]; [left; now apply Mono|right; exact K]
                            | destruct K7 as [K|K]; [left; now apply Mono|right; exact K] ]
       end. }
-  rewrite Hm.
-  change (c_session (upd_binarymime c false)) with (c_session c). rewrite Hsess. cbn [negb].
-  destruct (pop_mail (upd_binarymime c false)) as [r c2]. cbn [fst].
-  destruct r; eexists; eexists; reflexivity.
+  rewrite Hm. cbn [orb].
+  (* the binarymime flag *)
+  assert (Hbm : existsb bin_kv (sort_kv m) = is_binarymime (mo_body o)).
+  { destruct (existsb bin_kv (sort_kv m)) eqn:Ex.
+    - apply existsb_exists in Ex as (kv & Hkvin & Hb). apply sort_kv_in, Hin in Hkvin.
+      rewrite (mail_kvs_bin cfg ext o kv Hdom Hkvin Hb). reflexivity.
+    - destruct (is_binarymime (mo_body o)) eqn:Eb; [|reflexivity]. exfalso.
+      rewrite <- seen_body_bin with (ext := ext) in Eb.
+      assert (Hk : has_key (bs "BODY") (map fst (sort_kv m)) = true).
+      { apply Mono. unfold mail_kvs, body_kvs.
+        destruct (seen_body ext o) as [|s0 st]; [discriminate Eb|]. reflexivity. }
+      apply has_key_in, in_map_iff in Hk as ([k v] & Ek & Hkvin). cbn [fst] in Ek. subst k.
+      pose proof Hkvin as Hkv2. apply sort_kv_in, Hin in Hkv2.
+      assert (Hv : v = seen_body ext o).
+      { unfold mail_kvs in Hkv2. apply in_app_or in Hkv2 as [H|H].
+        - unfold body_kvs in H. destruct (seen_body ext o); [destruct H|].
+          destruct H as [H|[]]. now injection H as <-.
+        - exfalso.
+          repeat (apply in_app_or in H as [H|H]);
+            repeat match type of H with
+                   | In _ (if ?c then _ else _) => destruct c
+                   | In _ (match ?x with _ => _ end) => destruct x
+                   end;
+            cbn [In] in H; try contradiction;
+            destruct H as [H|[]]; discriminate H. }
+      assert (Hb : bin_kv (bs "BODY", v) = true) by (subst v; exact Eb).
+      assert (X : existsb bin_kv (sort_kv m) = true) by (apply existsb_exists; eauto).
+      congruence. }
+  rewrite Hbm.
+  destruct (pop_mail_flag c (is_binarymime (mo_body o))) as [Fb Fs].
+  rewrite <- (pop_mail_binarymime c (is_binarymime (mo_body o))).
+  change (c_session (upd_binarymime c (is_binarymime (mo_body o)))) with (c_session c).
+  rewrite Hsess. cbn [negb].
+  destruct (pop_mail (upd_binarymime c (is_binarymime (mo_body o)))) as [r c2]. cbn [fst snd] in *.
+  destruct r; eexists; eexists; (split; [reflexivity|exact Fb]).
 Qed.
 
 Print Assumptions C14_mail_trip.
@@ -945,6 +1098,9 @@ Proof.
 Qed.
 
 (* which keys that gives for the extensions C14 is about *)
+Lemma ext_key_sp a r : mem_byte " " a = false -> ClientProofs.ext_key (a ++ " " :: r) = a.
+Proof. intros H. unfold ClientProofs.ext_key. now rewrite cut_byte_app. Qed.
+
 Theorem C14_caps_keys cfg c :
   let ks := map ClientProofs.ext_key (caps cfg c) in
   In (bs "8BITMIME") ks /\ In (bs "SIZE") ks
@@ -952,7 +1108,8 @@ Theorem C14_caps_keys cfg c :
   /\ (c_tls c = true -> cf_requiretls cfg = true -> In (bs "REQUIRETLS") ks)
   /\ (cf_dsn cfg = true -> In (bs "DSN") ks)
   /\ (cf_rrvs cfg = true -> In (bs "RRVS") ks)
-  /\ (auth_allowed cfg c = true -> (exists m ms, cf_auth cfg = Some (m :: ms)) -> In (bs "AUTH") ks).
+  /\ (auth_allowed cfg c = true -> (exists m ms, cf_auth cfg = Some (m :: ms)) -> In (bs "AUTH") ks)
+  /\ (In (bs "BINARYMIME") ks <-> cf_binarymime cfg = true).
 Proof.
   cbv zeta. unfold caps. rewrite !map_app.
   repeat split.
@@ -971,6 +1128,107 @@ Proof.
     change (bs "AUTH" ++ flat_map (fun n => " " :: n) (m :: ms))
       with (bs "AUTH" ++ " " :: (m ++ flat_map (fun n => " " :: n) ms)).
     rewrite cut_byte_app by reflexivity. reflexivity.
+  - (* no other capability line has the key BINARYMIME *)
+    intros H. destruct (cf_binarymime cfg); [reflexivity|exfalso].
+    repeat (apply in_app_or in H as [H|H]).
+    + cbn [map In] in H. decompose [or] H; try contradiction;
+        match goal with X : ClientProofs.ext_key _ = _ |- _ => vm_compute in X; discriminate X end.
+    + destruct (cf_tls_config cfg && negb (c_tls c)); cbn [map In] in H; [|contradiction].
+      destruct H as [H|[]]. vm_compute in H. discriminate H.
+    + destruct (auth_allowed cfg c); [|contradiction].
+      destruct (cf_auth cfg) as [[|m ms]|]; cbn [map In] in H; try contradiction.
+      destruct H as [H|[]].
+      change (bs "AUTH" ++ flat_map (fun n => " " :: n) (m :: ms))
+        with (bs "AUTH" ++ " " :: (m ++ flat_map (fun n => " " :: n) ms)) in H.
+      rewrite ext_key_sp in H by reflexivity. discriminate H.
+    + destruct (cf_utf8 cfg); cbn [map In] in H; [|contradiction].
+      destruct H as [H|[]]. vm_compute in H. discriminate H.
+    + destruct (c_tls c && cf_requiretls cfg); cbn [map In] in H; [|contradiction].
+      destruct H as [H|[]]. vm_compute in H. discriminate H.
+    + contradiction.
+    + destruct (cf_dsn cfg); cbn [map In] in H; [|contradiction].
+      destruct H as [H|[]]. vm_compute in H. discriminate H.
+    + destruct (0 <? cf_max_bytes cfg)%Z; cbn [map In] in H; destruct H as [H|[]].
+      * change (bs "SIZE " ++ dec_of_Z (cf_max_bytes cfg)) with (bs "SIZE" ++ " " :: dec_of_Z (cf_max_bytes cfg)) in H.
+        rewrite ext_key_sp in H by reflexivity. discriminate H.
+      * vm_compute in H. discriminate H.
+    + destruct (0 <? cf_max_rcpt cfg)%N; cbn [map In] in H; [|contradiction].
+      destruct H as [H|[]].
+      change (bs "LIMITS RCPTMAX=" ++ dec_of_N (cf_max_rcpt cfg))
+        with (bs "LIMITS" ++ " " :: (bs "RCPTMAX=" ++ dec_of_N (cf_max_rcpt cfg))) in H.
+      rewrite ext_key_sp in H by reflexivity. discriminate H.
+    + destruct (cf_rrvs cfg); cbn [map In] in H; [|contradiction].
+      destruct H as [H|[]]. vm_compute in H. discriminate H.
+  - intros H. rewrite H. do 5 (apply in_or_app; right). apply in_or_app. left. now left.
+Qed.
+
+(* ------------------------------------------------------------------ *)
+(* MailOptions.Body: every value x every server configuration          *)
+(* ------------------------------------------------------------------ *)
+
+(* [ext] holds exactly the keys of THIS server's EHLO reply (C14_ehlo_bridge).
+   A server without EnableBINARYMIME does not offer BINARYMIME and the client
+   refuses Body = BINARYMIME locally (nothing is sent); in every other case the
+   backend sees exactly the Body the caller gave, and the connection's
+   binarymime flag is raised iff it was BINARYMIME. *)
+Theorem C14_body cfg ext c from b :
+  body_value b ->
+  (from = [] \/ addr_ok from = true) -> mail_state_ok c ->
+  (forall k, Client.has_ext ext k = true <-> In k (map ClientProofs.ext_key (caps cfg c))) ->
+  let o := set_body mo_zero b in
+  if is_binarymime b && negb (cf_binarymime cfg)
+  then Client.mail_params ext (Some o) = inr Client.err_binarymime
+  else exists ps arg c' w,
+         Client.mail_params ext (Some o) = inl ps
+         /\ parse_cmd (Client.mail_line from ps) = Some (bs "MAIL", arg)
+         /\ handle cfg c (bs "MAIL") arg = (c', [EMail from o (fst (pop_mail c)); w])
+         /\ c_binarymime c' = is_binarymime b.
+Proof.
+  intros Hv Hfrom Hst Hext o.
+  destruct (C14_caps_keys cfg c) as (K8 & _ & _ & _ & _ & _ & _ & Kb).
+  assert (Hne : b <> []) by (destruct Hv as [-> | [-> | ->]]; discriminate).
+  destruct (is_binarymime b && negb (cf_binarymime cfg)) eqn:Eref.
+  - apply andb_true_iff in Eref as [Eb Ec]. apply bytes_eqb_eq in Eb. apply negb_true_iff in Ec.
+    assert (Hx : Client.has_ext ext (bs "BINARYMIME") = false).
+    { destruct (Client.has_ext ext (bs "BINARYMIME")) eqn:X; [|reflexivity].
+      apply Hext, Kb in X. congruence. }
+    subst b. unfold Client.mail_params, Client.mail_body_param, Client.key. subst o.
+    cbn [mo_body set_body]. change (bytes_eqb (bs "BINARYMIME") (bs "7BIT") || bytes_eqb (bs "BINARYMIME") (bs "8BITMIME")) with false.
+    change (bytes_eqb (bs "BINARYMIME") (bs "BINARYMIME")) with true. cbv iota. rewrite Hx. reflexivity.
+  - assert (Hbin : b = bs "BINARYMIME" -> cf_binarymime cfg = true).
+    { intros ->. change (is_binarymime (bs "BINARYMIME")) with true in Eref. cbn [andb] in Eref.
+      now apply negb_false_iff in Eref. }
+    assert (Hdom : mail_dom cfg o).
+    { subst o. unfold mail_dom. cbn [set_body mo_body mo_size mo_ret mo_envid mo_auth mo_zero].
+      split; [right; exact Hv|]. split; [lia|]. split; [lia|]. split; [left; reflexivity|].
+      split; [reflexivity|exact I]. }
+    assert (Hsrv : mail_srv cfg o).
+    { subst o. unfold mail_srv. cbn [set_body mo_body mo_requiretls mo_utf8 mo_ret mo_envid mo_zero].
+      split; [exact Hbin|]. split; [discriminate|]. split; [discriminate|].
+      intros [H|H]; exfalso; apply H; reflexivity. }
+    assert (Hme : mail_ext ext o).
+    { subst o. unfold mail_ext.
+      cbn [set_body mo_body mo_size mo_requiretls mo_utf8 mo_ret mo_envid mo_auth mo_zero].
+      split; [intros _; apply Hext; exact K8|]. split; [intros E; apply Hext, Kb, Hbin, E|].
+      split; [intros H; exfalso; apply H; reflexivity|]. split; [discriminate|]. split; [discriminate|].
+      split; [intros [H|H]; exfalso; apply H; reflexivity|intros H; exfalso; apply H; reflexivity]. }
+    destruct (C14_mail_trip cfg ext c from (Some o) Hfrom Hdom Hsrv Hme Hst)
+      as (Hps & arg & Hparse & c' & w & Hh & Hflag).
+    rewrite (seen_mail_id ext o Hne) in Hh.
+    exists (mail_toks ext o), arg, c', w. repeat split; assumption.
+Qed.
+
+(* after BODY=BINARYMIME the server refuses DATA (the message has to be sent
+   with BDAT, which the client does not implement): the transaction of a
+   caller who asked for BINARYMIME ends there instead of delivering a message
+   that was not labelled as the caller wanted *)
+Theorem C14_binarymime_data_refused cfg c :
+  c_binarymime c = true -> c_bdat c = None ->
+  handle cfg c (bs "DATA") []
+  = (c, [reply 502 (5, 5, 1)%Z (bs "DATA not allowed for BINARYMIME messages")]).
+Proof.
+  intros Hb Hd. change (handle cfg c (bs "DATA") []) with (handle_data cfg c []).
+  unfold handle_data. rewrite Hd, Hb. reflexivity.
 Qed.
 
 (* ------------------------------------------------------------------ *)
@@ -980,14 +1238,14 @@ Qed.
 Lemma optb_eqb_refl a : CheckTrip.optb_eqb a a = true.
 Proof. destruct a; [apply bytes_eqb_refl|reflexivity]. Qed.
 
-Theorem C14_oracle_mail o :
-  CheckTrip.mo_matches o (seen_mail o) = true
-  /\ (mo_body o = [] \/ mo_body o = bs "8BITMIME" -> CheckTrip.body_matches o (seen_mail o) = true).
+Theorem C14_oracle_mail ext o :
+  CheckTrip.mo_matches o (seen_mail ext o) = true.
 Proof.
-  split.
-  - unfold CheckTrip.mo_matches, seen_mail, set_body. cbn [mo_size mo_requiretls mo_utf8 mo_ret mo_envid mo_auth].
-    rewrite Z.eqb_refl, !Bool.eqb_reflx, !bytes_eqb_refl, optb_eqb_refl. reflexivity.
-  - unfold CheckTrip.body_matches. intros [-> | ->]; reflexivity.
+  unfold CheckTrip.mo_matches, CheckTrip.body_matches, seen_mail, seen_body, set_body.
+  cbn [mo_body mo_size mo_requiretls mo_utf8 mo_ret mo_envid mo_auth].
+  rewrite Z.eqb_refl, !Bool.eqb_reflx, !bytes_eqb_refl, optb_eqb_refl, !andb_true_r.
+  destruct (mo_body o) as [|b0 bt]; [|apply bytes_eqb_refl].
+  destruct (Client.has_ext ext (bs "8BITMIME")); reflexivity.
 Qed.
 
 Lemma list_bytes_eqb_refl l : CheckOracle.list_bytes_eqb l l = true.
@@ -1029,6 +1287,11 @@ Definition cfg_noutf8 : config :=
   mkCfg false false (bs "srv") 0 0 2000 true false true true true true false (Some [bs "PLAIN"]) true.
 Definition ext_noutf8 : option Client.extmap :=
   Some (Client.parse_ext (join [LF] ((bs "Hello h") :: caps cfg_noutf8 c_ready))).
+(* the same server without BINARYMIME *)
+Definition cfg_nobin : config :=
+  mkCfg false false (bs "srv") 0 0 2000 true true true false true true false (Some [bs "PLAIN"]) true.
+Definition ext_nobin : option Client.extmap :=
+  Some (Client.parse_ext (join [LF] ((bs "Hello h") :: caps cfg_nobin c_ready))).
 
 (* the model composition: client renders, server parses and handles *)
 Definition trip_mail cfg ext c from opts : option (list event) :=
@@ -1100,16 +1363,26 @@ Example C14_mail_trip_ex :
   addr_ok from_ex = true /\ mail_dom cfg_all mo_ex /\ mail_srv cfg_all mo_ex
   /\ mail_ext ext_all mo_ex /\ mail_state_ok c_ready
   /\ option_map mails (trip_mail cfg_all ext_all c_ready from_ex (Some mo_ex))
-     = Some [(from_ex, seen_mail mo_ex)].
+     = Some [(from_ex, seen_mail ext_all mo_ex)]
+  (* the same options with Body = BINARYMIME: they arrive unchanged *)
+  /\ (let o := set_body mo_ex (bs "BINARYMIME") in
+      mail_dom cfg_all o /\ mail_srv cfg_all o /\ mail_ext ext_all o /\ seen_mail ext_all o = o
+      /\ option_map mails (trip_mail cfg_all ext_all c_ready from_ex (Some o)) = Some [(from_ex, o)]).
 Proof.
-  split; [reflexivity|]. split.
-  { unfold mail_dom. cbn [mo_size mo_ret mo_envid mo_auth mo_ex cfg_all cf_max_bytes].
-    split; [lia|]. split; [left; lia|]. split; [right; right; reflexivity|].
+  assert (D : forall b, b = [] \/ body_value b -> mail_dom cfg_all (set_body mo_ex b)).
+  { intros b Hb. unfold mail_dom.
+    cbn [set_body mo_body mo_size mo_ret mo_envid mo_auth mo_ex cfg_all cf_max_bytes].
+    split; [exact Hb|]. split; [lia|]. split; [left; lia|]. split; [right; right; reflexivity|].
     split; [reflexivity|]. split; reflexivity. }
+  split; [reflexivity|]. split; [exact (D [] (or_introl eq_refl))|].
   split. { repeat split; intros _; reflexivity. }
   split. { repeat split; intros _; vm_compute; reflexivity. }
   split. { repeat split; try reflexivity. discriminate. }
-  vm_compute. reflexivity.
+  split; [vm_compute; reflexivity|]. cbv zeta.
+  split; [apply D; right; right; right; reflexivity|].
+  split. { repeat split; intros _; reflexivity. }
+  split. { repeat split; intros _; vm_compute; reflexivity. }
+  split; [apply seen_mail_id; discriminate|]. vm_compute. reflexivity.
 Qed.
 
 Definition ro_ex : rcpt_opts :=
@@ -1157,14 +1430,58 @@ Proof.
   rewrite forallb_forall in C. apply negb_true_iff. now apply C.
 Qed.
 
-(* ---- outside the domain ---- *)
+(* ---- MailOptions.Body: non-vacuity of C14_body, and its instances ---- *)
 
-(* F14: MailOptions.Body is never transmitted - Body = BINARYMIME arrives as 8BITMIME *)
-Theorem C14_body_refuted :
-  option_map mails (trip_mail cfg_all ext_all c_ready (bs "a@b")
-                      (Some (mkMO (bs "BINARYMIME") 0 false false [] [] None)))
-  = Some [(bs "a@b", mkMO (bs "8BITMIME") 0 false false [] [] None)].
-Proof. vm_compute. reflexivity. Qed.
+(* the hypothesis of C14_body about [ext] holds for the map parsed from the
+   server's own EHLO reply *)
+Example C14_body_ext_ex :
+  (forall k, Client.has_ext ext_all k = true
+             <-> In k (map ClientProofs.ext_key (caps cfg_all c_ready)))
+  /\ (forall k, Client.has_ext ext_nobin k = true
+                <-> In k (map ClientProofs.ext_key (caps cfg_nobin c_ready))).
+Proof.
+  split; intros k; unfold ext_all, ext_nobin; rewrite ClientProofs.has_ext_parse_ext.
+  - assert (E : ClientProofs.ext_lines (join [LF] (bs "Hello h" :: caps cfg_all c_ready))
+                = caps cfg_all c_ready) by (vm_compute; reflexivity).
+    rewrite E. reflexivity.
+  - assert (E : ClientProofs.ext_lines (join [LF] (bs "Hello h" :: caps cfg_nobin c_ready))
+                = caps cfg_nobin c_ready) by (vm_compute; reflexivity).
+    rewrite E. reflexivity.
+Qed.
+
+(* the three values through the model composition, on the fully enabled server
+   and on the one without BINARYMIME; an unset Body; DATA after BINARYMIME *)
+Example C14_body_ex :
+  let body b := mkMO b 0 false false [] [] None in
+  let trip cfg ext b := option_map mails (trip_mail cfg ext c_ready (bs "a@b") (Some (body b))) in
+  trip cfg_all ext_all (bs "7BIT") = Some [(bs "a@b", body (bs "7BIT"))]
+  /\ trip cfg_all ext_all (bs "8BITMIME") = Some [(bs "a@b", body (bs "8BITMIME"))]
+  /\ trip cfg_all ext_all (bs "BINARYMIME") = Some [(bs "a@b", body (bs "BINARYMIME"))]
+  /\ trip cfg_nobin ext_nobin (bs "7BIT") = Some [(bs "a@b", body (bs "7BIT"))]
+  /\ trip cfg_nobin ext_nobin (bs "8BITMIME") = Some [(bs "a@b", body (bs "8BITMIME"))]
+  /\ Client.mail_params ext_nobin (Some (body (bs "BINARYMIME"))) = inr Client.err_binarymime
+  /\ Client.mail_params ext_all (Some (body (bs "binarymime"))) = inr Client.err_body
+  /\ trip cfg_all ext_all [] = Some [(bs "a@b", body (bs "8BITMIME"))]
+  /\ option_map mails (trip_mail cfg_all ext_all c_ready (bs "a@b") None)
+     = Some [(bs "a@b", body (bs "8BITMIME"))].
+Proof. vm_compute. repeat split. Qed.
+
+Example C14_binarymime_data_ex :
+  match Client.mail_params ext_all (Some (mkMO (bs "BINARYMIME") 0 false false [] [] None)) with
+  | inl ps =>
+      match parse_cmd (Client.mail_line (bs "a@b") ps) with
+      | Some (cmd, arg) =>
+          let c' := fst (handle cfg_all c_ready cmd arg) in
+          c_binarymime c' = true /\ c_bdat c' = None
+          /\ snd (handle cfg_all c' (bs "DATA") [])
+             = [reply 502 (5, 5, 1)%Z (bs "DATA not allowed for BINARYMIME messages")]
+      | None => False
+      end
+  | inr _ => False
+  end.
+Proof. vm_compute. repeat split. Qed.
+
+(* ---- outside the domain ---- *)
 
 (* F25: an address that is not addr_simple injects parameters *)
 Theorem C14_address_injection_refuted :
@@ -1226,5 +1543,7 @@ Print Assumptions C14_client_writes_mail.
 Print Assumptions C14_client_writes_rcpt.
 Print Assumptions C14_ehlo_bridge.
 Print Assumptions C14_caps_keys.
+Print Assumptions C14_body.
+Print Assumptions C14_binarymime_data_refused.
 Print Assumptions C14_oracle_mail.
 Print Assumptions C14_oracle_rcpt.
